@@ -3,6 +3,8 @@ from specs import conc, snapshot
 
 LEVEL = 'proof'
 UNITS = conc.units('C09') + [snapshot.producer_unit('C09'), snapshot.run_unit('C09'), snapshot.producer_start_unit('C09')]
+from specs import families as _families
+UNITS = _families.with_families('C09', UNITS)
 BOUNDED = [
     {'name': 'C09.sched', 'script': 'bounded/c09_sched.py', 'timeout': 900,
      'bound': '3 file sets x N in {1,2,3} x {sync backend in executor threads, coroutine backend} x 2 (thorough: 16) seeds of random per-call '
